@@ -81,6 +81,16 @@ theorem C19_history_release (ops : List HOp) :
   obtain ⟨F, inv⟩ := C19_history_heap ops
   exact releaseAll_spec inv
 
+/-- **different references, different objects** — in a represented state two references that resolve to the same address
+    are the same reference (slot and path): the blocks of different slots and of different members are disjoint.  So the
+    pointer tests of the C (`*clone == value` in cif_value_clone, `target == element` in set_element_at, `value ==
+    existing_value` in cif_map_set_item), made on addresses by the heap interpretation, are the reference comparison of the pure
+    interpretation. -/
+theorem C19_refs_distinct (T : List Nat) (s : HState) (p : PState) (F : Root → List Nat) (inv : RepS T s p F) (r1 r2 : Ref)
+    (c1 c2 : V) (h1 : getP p r1 = some c1) (h2 : getP p r2 = some c2) (t : Nat) (hr1 : resolveRef s r1 = some t)
+    (hr2 : resolveRef s r2 = some t) : r1 = r2 :=
+  inv.resolve_inj r1 r2 c1 c2 h1 h2 t hr1 hr2
+
 /-- the states the driver of family `valheap` prints its observations from (`traceH`) are the `runH` states of the prefixes -/
 theorem C19_history_trace (ops : List HOp) (s : HState) :
     traceH ops s = (List.range ops.length).map (fun n => runH (ops.take (n + 1)) s) := by
